@@ -29,7 +29,7 @@ Proof. intros H. unfold loadable, under_sp. now rewrite H. Qed.
 
 Lemma wf_sp E E' i : v_sp E = v_sp E' -> wf E i -> wf E' i.
 Proof.
-  intros H [W NR]. split; [|exact NR]. intros x y Hx Hy L P. apply W; try assumption.
+  intros H W. intros x y Hx Hy L P. apply W; try assumption.
   now rewrite (loadable_sp E E' x H).
 Qed.
 
@@ -86,13 +86,7 @@ Qed.
 
 Lemma wf_gen E s i : wf E i -> wf E (load_where E s i).
 Proof.
-  intros [Hwf Hnr]. split.
-  2:{ intros y Hy. apply load_where_in in Hy as [x [Hx Hy]]. pose proof (Hnr x Hx) as NR.
-      destruct (s x); [|destruct Hy as [<-|[]]; assumption].
-      destruct (expand_cases E x) as [Hex|[_ [rows [_ Hex]]]]; rewrite Hex in Hy.
-      - destruct Hy as [<-|[]]; assumption.
-      - destruct Hy as [<-|Hc]; [assumption|]. destruct (child_key _ _ _ Hc) as [sfx ->].
-        destruct (fst x); [congruence | discriminate]. }
+  intros Hwf.
   intros x' y' Hx' Hy' L P.
   destruct (loadable_after' E s i x' Hx' L) as [Hxi Sx].
   apply load_where_in in Hy' as [y [Hyi Hy']].
